@@ -5,7 +5,7 @@ package mem
 // Contracts for govc, the contract verifier under /verif (see /verif/DESIGN.md).
 // This file contains comments only; it adds no code under any build tag.
 
-//@ syncmap store.records key string val keyvalue.FileRecord
+//@ syncmap store.records key string val keyvalue.FileRecord props C01 C03 C14 C17 C18
 
 // A transaction holds the store lock from Transaction() until its single release.
 //@ spec txnInv(t *transaction) := t != nil && storeInv(t.store) && t.ctx != nil && cancels(t.abort, t.ctx) && t.abort != nil &&
